@@ -689,7 +689,7 @@ var RandSource = rand.New(rand.NewSource(time.Now().UnixNano())) //nolint:gosec
 
 func randFunc(_ *scope, args []value) (value, error) {
 	upper := args[0].(*numVal).V
-	if upper < 1 || upper > 2147483647 { // [1, 2^31-1]
+	if !(upper >= 1 && upper <= 2147483647) { // [1, 2^31-1]; also rejects NaN
 		return nil, fmt.Errorf(`%w: "rand %v" not in range 1 to 2147483647`, ErrBadArguments, upper)
 	}
 	return &numVal{V: float64(RandSource.Int31n(int32(upper)))}, nil
